@@ -24,14 +24,43 @@ Input classes beyond random field values (each counted in the evidence histogram
   field changed;
 * held objects (held:*): PDUs and the objects histories leave behind are kept alive and must still serialise to the
   recorded bytes after everything else ran (no state shared between objects).
+Round 3 (each a probe: a deterministic function of a json-able parameter record, replayed from the record):
+* argument provenance (prov:*): option lists by recipe — the entry objects come from the harness (tuples, namedtuples) or
+  from the library (HSTRPOptions.from_bytes, add_option on another object); the list is assigned directly / appended /
+  extended-then-appended (a relay) / inserted / slice-assigned / += / [e]*k / built by add_option (fresh entries, shared
+  data objects) / rebuilt from equal-but-not-identical entries; the SAME entry object sits at several positions following
+  nine identity patterns (all the same, last is first / middle / previous, first recurs inside, duplicates in front of a
+  unique last, sampled from a small pool, palindrome, all distinct).  Expected octets: the chain written out by hand from
+  the VALUES by POSITION.  The same recipes are steps of the object histories (opts-dup, opts-assign).
+* shared sub-objects (alias:*): ONE RadioIP (source AND destination of a message, address of PDUs of three services), ONE
+  settings dict (dict / OrderedDict) in two requests, ONE GPSData in two reports, ONE bytes object in every opaque field and
+  in several options, ONE options object / list object / set of entry objects / packet type object in several HSTRP packets,
+  ONE PDU in HRNP and two HSTRP packets, objects made by one parser nested by hand into the other wrapper; observed,
+  changed through one reference, every holder re-verified against the specification values, a freshly built PDU, the
+  hand-written wrappers and the model.
+* size extremes inside ONE PDU (size:*): option chains of 128 / 256 / 1 000 / 5 000 / 20 000 / 32 760 options (thorough: up to
+  70 000), 255 options of 255 octets, TMP text / short data / option data and RCP raw payloads at 65 535 - overhead and at
+  the largest size that still fits HRNP (packet length exactly 65 535, all-0xFF content for the longest carry chain), the
+  neighbours of 2^8, 2^12, 2^15, 2^16; one past each limit the code has to refuse (or be right); correspondence with the
+  model at these sizes too (quick: about half of the 64 kB packets); several of them again DEEP_REMAINING frames below the
+  interpreter's recursion limit.  The random stream reaches 127..257 and 990..1500 options now and then.
+* ambient state (ambient:*): a fixed sample (build, serialise, parse, HRNP, HSTRP with up to 120 options) answered again deep
+  in the call stack, with the root logger at DEBUG and dead stdout / stderr, with failing calls (wrong lengths / values /
+  types on every entry point) in between, with the global `random` reseeded, and by ONE child `python -O` whose first calls
+  are failing ones; all answers must equal the plain ones.
 """
+import collections
 import copy
 import enum
 import glob
 import json
+import logging
 import os
 import random
 import re
+import subprocess
+import sys
+import tempfile
 from datetime import date, time
 
 from common import impl_error
@@ -449,7 +478,13 @@ class Gps:
                          speed_s(d["speed"]), str(d["direction"])])
 
 
-def realise(v):
+def realise(v, memo=None):
+    """the real constructor argument of a specification value; with a memo the SAME specification object becomes the
+    SAME real object wherever it occurs (sub-objects shared between fields / between PDUs)"""
+    if memo is not None and isinstance(v, (IP, Gps, dict)):
+        if id(v) not in memo:
+            memo[id(v)] = (v, realise(v))  # the spec object is kept alive with its image
+        return memo[id(v)][1]
     if isinstance(v, (IP, Text, Gps)):
         return v.real()
     if isinstance(v, dict):
@@ -471,8 +506,8 @@ class Case:
     def __init__(self, svc, kw):
         self.svc, self.kw = svc, kw
 
-    def build(self):
-        return Case.CLS[self.svc]()(**{k: realise(v) for k, v in self.kw.items()})
+    def build(self, memo=None):
+        return Case.CLS[self.svc]()(**{k: realise(v, memo) for k, v in self.kw.items()})
 
     @property
     def text(self):
@@ -544,7 +579,7 @@ def gen_ip(rng):
 
 
 def gen_bytes(rng, n):
-    return bytes(rng.randrange(256) for _ in range(n))
+    return rng.randbytes(n) if n else b""
 
 
 # ---- special tokens ---------------------------------------------------------------------------
@@ -804,7 +839,7 @@ def gen_option_list(rng, k):
     for _ in range(k):
         c = rng.choice(list(H.HSTRPOptionType))
         natural = {H.HSTRPOptionType.RTP: 0, H.HSTRPOptionType.DeviceID: 4}.get(c, 1)
-        n = natural if rng.random() < 0.6 else rng.choice([0, 1, 2, 3, 7, 100, 255])
+        n = natural if rng.random() < (0.6 if k < 100 else 0.97) else rng.choice([0, 1, 2, 3, 7, 100, 127, 128, 129, 254, 255])
         d = gen_bytes(rng, n)
         if rng.random() < 0.1:
             d = place(BYTE_TOKENS[rng.choice(BYTE_TOKEN_NAMES)], d[:200], rng.choice(POSITIONS[1:]))
@@ -1003,14 +1038,23 @@ def hrnp_fields(h):
                      str(h.packet_number), "NONE" if h.data is None else relevant_tuple(h.data)])
 
 
-def check_hstrp(ctx, rng, p, b, inp, pairs, k=None):
+LONG_CHAINS = [9, 17, 40, 127, 128, 129, 255, 256, 257]  # counters that fit / no longer fit one octet
+VERY_LONG_CHAINS = [990, 999, 1000, 1001, 1024, 1500]  # around the interpreter's default recursion limit
+
+
+def check_hstrp(ctx, rng, p, b, inp, pairs, k=None, opts=None, spec=None, extra=None):
+    """opts / spec given: an option object filled by the caller (spec = the (command, data) values by position)"""
     H = L.hstrp
-    if k is None:
-        k = rng.choice([0, 1, 2, 2, 3, 4]) if rng.random() < 0.96 else rng.choice([9, 17, 40])  # long chains now and then
+    if k is None and opts is None:
+        r = rng.random()
+        k = rng.choice([0, 1, 2, 2, 3, 4]) if r < 0.96 else rng.choice(LONG_CHAINS if r < 0.9985 else VERY_LONG_CHAINS)  # long chains now and then
         if k > 4:
-            ctx.count("hstrp:long-option-chain")
-    spec = gen_option_list(rng, k)
-    opts = call(gen_options, rng, k, spec)
+            ctx.count("hstrp:long-option-chain" if k < 900 else "hstrp:option-chain>=990")
+    if opts is not None:
+        k = len(spec)
+    else:
+        spec = gen_option_list(rng, k)
+        opts = call(gen_options, rng, k, spec)
     if isinstance(opts, Exc):
         # stop here: a list that grows with every object built would only slow everything down
         ctx.fail("hstrp-options-state", dict(inp, nesting="HSTRP", hstrp={"options": ",".join(f"{c.value}:{hx(d)}" for c, d in spec) or "-"}),
@@ -1020,7 +1064,7 @@ def check_hstrp(ctx, rng, p, b, inp, pairs, k=None):
     sn = pick_int(rng, 65535)
     use_none = k == 0 and rng.random() < 0.5
     s = H.HSTRP(pkt_type=t, sn=sn, options=None if use_none else opts, payload=p, version=rng.choice([0, 0, 0, 1, 255]))
-    inp = dict(inp, nesting="HSTRP", hstrp={"type": t.as_bytes()[0], "sn": sn, "options": ",".join(f"{c.value}:{hx(d)}" for c, d in spec) or "-", "version": s.version})
+    inp = dict(inp, nesting="HSTRP", hstrp=dict({"type": t.as_bytes()[0], "sn": sn, "options": ",".join(f"{c.value}:{hx(d)}" for c, d in spec) or "-", "version": s.version}, **(extra or {})))
     sb = call(s.as_bytes)
     if isinstance(sb, Exc):
         ctx.fail("hstrp-serialise-raises", inp, f"HSTRP.as_bytes raised {sb}", actual=repr(sb))
@@ -1054,8 +1098,10 @@ def check_hstrp(ctx, rng, p, b, inp, pairs, k=None):
     if pairs is not None:
         tup = safe(pdu_tuple, p)
         if not tup.startswith("ERR"):
-            pairs.append((f"hstrp.mk {s.version} {t.as_bytes()[0]} {sn} {opts_s(None if use_none else opts)} {tup}", hx(sb)))
+            # the model is told the VALUES the options were filled from (it has no object identity)
+            pairs.append((f"hstrp.mk {s.version} {t.as_bytes()[0]} {sn} {','.join(f'{c.value}:{hx(d)}' for c, d in spec) or '-'} {tup}", hx(sb)))
             pairs.append((f"hstrp.parse {hx(sb)}", impl_hstrp_parse(sb)))
+    return sb
 
 
 def hstrp_fields(s):
@@ -1192,6 +1238,7 @@ class State:
 
     def __init__(self, p):
         self.p, self.h, self.s = p, None, None
+        self.keep = []  # donors of option entries (kept alive like the application that handed them over would)
         self.own_gps = isinstance(p, L.lp.LocationProtocol) and p.specific_service == L.lp.LocationProtocolSpecificService.StandardReport
         self.own_dict = isinstance(p, L.rcp.RadioControlProtocol) and p.opcode == L.rcp.RCPOpcode.StatusChangeNotificationRequest
 
@@ -1307,6 +1354,24 @@ def apply_step(st, step):
         hstrp_make_consistent(st.s)
     elif op == "opts-replace":
         st.s.options.options[step["index"]] = (member(L.hstrp.HSTRPOptionType, step["cmd"]), bytes.fromhex(step["data"]))
+    elif op == "opts-dup":
+        # the SAME entry object once more (at the end or at a position): what a relay does that copies entries over
+        lst = st.s.options.options
+        e = lst[step["index"]]
+        if step["at"] is None:
+            lst.append(e)
+        else:
+            lst.insert(step["at"], e)
+        hstrp_make_consistent(st.s)
+    elif op == "opts-assign":
+        # a list handed over from outside (entries by recipe: the same object at several positions, library-made entries …)
+        o, _values, keep = build_options(step["recipe"])
+        if st.s.options is None or step.get("whole"):
+            st.s.options = o
+        else:
+            st.s.options.options = o.options
+        st.keep.append(keep)
+        hstrp_make_consistent(st.s)
     elif op == "hstrp-set":
         a = step["attr"]
         if a == "payload":
@@ -1545,6 +1610,8 @@ def next_step(rng, st, force=None):
         if k:
             i = rng.randrange(k)
             c += [{"op": "opts-pop", "index": i}, {"op": "opts-replace", "index": i, "cmd": cmd, "data": data}] * 2
+            c += [{"op": "opts-dup", "index": rng.randrange(k), "at": rng.choice([None, None, 0, rng.randrange(k + 1)])}] * 3
+        c += [{"op": "opts-assign", "recipe": gen_recipe(rng, rng.choice([1, 2, 3, 5])), "whole": rng.random() < 0.3}] * 2
         c += [{"op": "hstrp-set", "attr": "sn", "value": pick_int(rng, 65535)}, {"op": "hstrp-set", "attr": "version", "value": rng.choice([0, 1, 255])},
               {"op": "hstrp-set", "attr": rng.choice(["is_reject", "is_close", "is_connect", "is_ack", "have_options", "is_heartbeat"]), "value": rng.random() < 0.5},
               {"op": "hstrp-set", "attr": "payload", "value": st.s.payload is None}]
@@ -1621,38 +1688,43 @@ def verify_state(ctx, st, inp, pairs, deep):
                             ctx.fail("roundtrip-fields", hi, "HRNP parsed fields differ", expected=f1[0], actual=f1[1])
             if pairs is not None:
                 pairs.append((f"hrnp.mk {hx(h.header)} {hx(h.version)} {h.block_number} {h.opcode.value} {h.source} {h.destination} {h.packet_number} {tup}", hx(hb) + " " + str(hl)))
-    s = st.s
-    if s is not None:
-        si = dict(inp, nesting="HSTRP")
-        sb = call(s.as_bytes)
-        if isinstance(sb, Exc):
-            ctx.fail("hstrp-serialise-raises", si, f"HSTRP.as_bytes raised {sb}", actual=repr(sb))
-        else:
-            t = s.pkt_type
-            tb = sum(bit << i for i, bit in enumerate([t.is_ack, t.is_heartbeat, t.is_connect, t.is_close, t.is_reject, t.have_options]))
-            ol = [] if s.options is None else [(c.value, bytes(d)) for c, d in s.options.options]
-            tlv = spec_tlv(ol)
-            want = b"2B" + bytes([s.version, tb]) + s.sn.to_bytes(2, "big") + tlv + (fb if s.payload is not None else b"")
-            if sb != want:
-                ctx.fail("history-hstrp-bytes", si, "the kept HSTRP wrapper serialises differently from the packet written out by hand for its current fields", expected=want.hex(), actual=sb.hex())
-            if s.options is not None:
-                ln, ob = call(len, s.options), call(s.options.as_bytes)
-                if ln != len(tlv) or ob != tlv:
-                    ctx.fail("hstrp-options-len", si, "len(options) / options.as_bytes() differ from the option chain written out by hand", expected=[len(tlv), tlv.hex()], actual=[repr(ln), repr(ob) if isinstance(ob, Exc) else ob.hex()])
-            if deep and consistent(t, len(ol), s.payload is not None):
-                s2 = call(L.hstrp.HSTRP.from_bytes, sb)
-                if isinstance(s2, Exc) or s2 is None:
-                    ctx.fail("parse-raises", si, f"HSTRP.from_bytes of the serialisation gave {s2!r}", actual=repr(s2))
-                else:
-                    sb2 = call(s2.as_bytes)
-                    if isinstance(sb2, Exc) or sb2 != sb:
-                        ctx.fail("roundtrip-bytes", si, "HSTRP parse then serialise does not reproduce the bytes", expected=sb.hex(), actual=repr(sb2) if isinstance(sb2, Exc) else sb2.hex())
-                    f1 = safe(lambda: hstrp_fields(s)), safe(lambda: hstrp_fields(s2))
-                    if f1[0] != f1[1]:
-                        ctx.fail("roundtrip-fields", si, "HSTRP parsed fields differ", expected=f1[0], actual=f1[1])
-            if pairs is not None:
-                pairs.append((f"hstrp.mk {s.version} {tb} {s.sn} {opts_s(s.options)} {tup if s.payload is not None else 'NONE'}", hx(sb)))
+    if st.s is not None:
+        verify_hstrp_now(ctx, st.s, fb, dict(inp, nesting="HSTRP"), deep, pairs, tup)
     return len(ctx.failures) == n0
+
+
+def verify_hstrp_now(ctx, s, fb, si, deep, pairs, tup):
+    """an HSTRP object as it is now against the packet written out by hand from its current attributes (the option list
+    read by position and value); fb = serialisation of a PDU built afresh from the payload's field values (tup)"""
+    sb = call(s.as_bytes)
+    if isinstance(sb, Exc):
+        ctx.fail("hstrp-serialise-raises", si, f"HSTRP.as_bytes raised {sb}", actual=repr(sb))
+        return None
+    t = s.pkt_type
+    tb = sum(bit << i for i, bit in enumerate([t.is_ack, t.is_heartbeat, t.is_connect, t.is_close, t.is_reject, t.have_options]))
+    ol = [] if s.options is None else [(c.value, bytes(d)) for c, d in s.options.options]
+    tlv = spec_tlv(ol)
+    want = b"2B" + bytes([s.version, tb]) + s.sn.to_bytes(2, "big") + tlv + (fb if s.payload is not None else b"")
+    if sb != want:
+        ctx.fail("history-hstrp-bytes", si, "the kept HSTRP wrapper serialises differently from the packet written out by hand for its current fields", expected=want.hex(), actual=sb.hex())
+    if s.options is not None:
+        ln, ob = call(len, s.options), call(s.options.as_bytes)
+        if ln != len(tlv) or ob != tlv:
+            ctx.fail("hstrp-options-len", si, "len(options) / options.as_bytes() differ from the option chain written out by hand", expected=[len(tlv), tlv.hex()], actual=[repr(ln), repr(ob) if isinstance(ob, Exc) else ob.hex()])
+    if deep and consistent(t, len(ol), s.payload is not None):
+        s2 = call(L.hstrp.HSTRP.from_bytes, sb)
+        if isinstance(s2, Exc) or s2 is None:
+            ctx.fail("parse-raises", si, f"HSTRP.from_bytes of the serialisation gave {s2!r}", actual=repr(s2))
+        else:
+            sb2 = call(s2.as_bytes)
+            if isinstance(sb2, Exc) or sb2 != sb:
+                ctx.fail("roundtrip-bytes", si, "HSTRP parse then serialise does not reproduce the bytes", expected=sb.hex(), actual=repr(sb2) if isinstance(sb2, Exc) else sb2.hex())
+            f1 = safe(lambda: hstrp_fields(s)), safe(lambda: hstrp_fields(s2))
+            if f1[0] != f1[1]:
+                ctx.fail("roundtrip-fields", si, "HSTRP parsed fields differ", expected=f1[0], actual=f1[1])
+    if pairs is not None:
+        pairs.append((f"hstrp.mk {s.version} {tb} {s.sn} {opts_s(s.options)} {tup if s.payload is not None else 'NONE'}", hx(sb)))
+    return sb
 
 
 MUTATING = ("set", "ip-set", "gps-set", "dict-set", "dict-del")
@@ -1745,6 +1817,1120 @@ def verify_held(ctx, held):
         if now != b or ln != len(b):
             ctx.fail("held-object-changed", inp, "a PDU kept alive serialises differently / reports another length after other PDUs were built and used",
                      expected=[b.hex(), len(b)], actual=[repr(now) if isinstance(now, Exc) else now.hex(), repr(ln)])
+
+
+# ------------------------------------------------------------------------------------------------
+# probes (round 3): deterministic functions of a json-able parameter record, so that generation and replay share the
+# code path.  A failure carries {"probe": name, "params": …} plus the short parts of the usual input description.
+#   provenance  WHERE the entries of an option list come from and HOW the list was filled: the SAME entry object at
+#               several positions (also last), equal-but-not-identical entries, lists assigned directly / appended /
+#               extended / built by add_option, entries made by the library (parsed, taken from another object)
+#   alias       ONE sub-object (RadioIP, GPSData, settings dict, bytes, packet type, option object / list / entries,
+#               payload) referenced from several fields / PDUs / wrappers, observed, changed through one reference
+#   size        every repeatable / variable-length structure inside ONE PDU at the sizes the 16-bit length fields and a
+#               64 kB datagram allow (option chains of 10^3..10^4 entries, payloads up to 65 535 octets, HRNP at 65 535)
+#   ambient     a fixed sample answered again deep in the call stack, with logging at DEBUG and dead standard streams,
+#               with failing calls in between, with `random` reseeded, and by a child `python -O`
+
+
+def abbr(x, n=400):
+    """long strings / lists shortened for the failure record (the probe's parameters reproduce the full input)"""
+    if isinstance(x, str) and len(x) > n:
+        return x[: n // 2] + f"…[{len(x)} characters]…" + x[-(n // 4) :]
+    if isinstance(x, (list, tuple)):
+        if len(x) > 24:
+            return [abbr(e, n) for e in x[:12]] + [f"…[{len(x)} entries]…"] + [abbr(e, n) for e in x[-4:]]
+        return [abbr(e, n) for e in x]
+    if isinstance(x, dict):
+        return {k: abbr(v, n) for k, v in x.items()}
+    return x
+
+
+PROBE_KEYS = ("service", "nesting", "hstrp", "hrnp", "fields", "text_as", "speed", "alias", "object", "after", "stack_remaining",
+              "ambient", "history", "fields0", "origin", "layer", "item")
+
+
+class ProbeCtx:
+    """routes the failures of one probe to the run context with the probe's replayable description as the input"""
+
+    def __init__(self, ctx, name, params):
+        self.ctx, self.name, self.params = ctx, name, params
+        self.failures = ctx.failures  # the same list: helpers compare its length before / after
+
+    def fail(self, kind, inp, what, expected=None, actual=None):
+        d = {"probe": self.name, "params": self.params}
+        if isinstance(inp, dict):
+            d.update({k: abbr(inp[k]) for k in PROBE_KEYS if k in inp})
+        self.ctx.fail(kind, d, what, expected=abbr(expected), actual=abbr(actual))
+
+    def count(self, *a, **k):
+        self.ctx.count(*a, **k)
+
+    def case(self, *a, **k):
+        self.ctx.case(*a, **k)
+
+
+# ---- provenance of option lists ---------------------------------------------------------------
+
+OptT = collections.namedtuple("OptT", ["command", "data"])  # a tuple all the same: what typed application code hands over
+
+POOL_ORIGINS = ("literal", "namedtuple", "parsed", "donor")
+OPT_HOWS = ("assign", "append", "extend-then-append", "insert-front", "slice-assign", "iadd", "mul", "add_option", "equal-fresh")
+PICK_PATTERNS = ("all-same", "last-is-first", "last-is-middle", "last-is-previous", "first-recurs-inside",
+                 "duplicates-before-a-unique-last", "sampled-from-small-pool", "palindrome", "all-distinct")
+
+
+def clone_bytes(b: bytes) -> bytes:
+    """an equal bytes object that is another object wherever CPython allows it (b"" and single octets are singletons)"""
+    return bytes(bytearray(b))
+
+
+def make_picks(rng, pattern, k):
+    """position -> index into the pool of entry objects; the same index = the SAME object"""
+    if k <= 1:
+        return [0] * k
+    if pattern == "all-same":
+        return [0] * k
+    if pattern == "last-is-first":
+        return list(range(k - 1)) + [0]
+    if pattern == "last-is-middle":
+        return list(range(k - 1)) + [(k - 1) // 2]
+    if pattern == "last-is-previous":
+        return list(range(k - 1)) + [k - 2]
+    if pattern == "first-recurs-inside":
+        p = list(range(k))
+        if k >= 3:
+            p[rng.randrange(1, k - 1)] = 0
+        return p
+    if pattern == "duplicates-before-a-unique-last":
+        p = [rng.randrange(max(1, (k - 1) // 2)) for _ in range(k - 1)]
+        return p + [max(p) + 1]
+    if pattern == "sampled-from-small-pool":
+        m = rng.choice([1, 2, 3])
+        return [rng.randrange(m) for _ in range(k)]
+    if pattern == "palindrome":
+        h = list(range((k + 1) // 2))
+        return h + h[: k // 2][::-1]
+    return list(range(k))
+
+
+def gen_recipe(rng, k, pattern=None, origin=None, how=None):
+    """a json-able description of an option list: pool of entries, which pool entry sits at which position, where the
+    entry objects come from and how the list is filled"""
+    pattern = pattern or rng.choice(PICK_PATTERNS)
+    origin = origin or rng.choice(POOL_ORIGINS)
+    how = how or rng.choice(OPT_HOWS)
+    picks = make_picks(rng, pattern, k)
+    if how == "mul" and len(set(picks)) > 1:
+        how = "assign"
+    pool = gen_option_list(rng, max(picks) + 1 if picks else 0)
+    if len(pool) > 1 and rng.random() < 0.3:
+        pool[rng.randrange(1, len(pool))] = pool[0]  # equal VALUES in two pool entries: two objects that compare equal
+    return {"origin": origin, "how": how, "pattern": pattern, "pool": [[c.value, d.hex()] for c, d in pool], "picks": picks}
+
+
+class ProvenanceSetup(Exception):
+    """the library-made entries of a pool are not the values they were made from"""
+
+
+def build_pool(origin, pool):
+    """entry objects of a pool (one object per pool entry) and whatever has to stay alive with them"""
+    H = L.hstrp
+    vals = [(member(H.HSTRPOptionType, c), bytes.fromhex(h)) for c, h in pool]
+    if origin == "literal" or not vals:
+        return [(c, clone_bytes(d)) for c, d in vals], vals, None
+    if origin == "namedtuple":
+        return [OptT(c, clone_bytes(d)) for c, d in vals], vals, None
+    if origin == "parsed":  # entries the library's parser made
+        o = H.HSTRPOptions.from_bytes(spec_tlv([(c.value, d) for c, d in vals]))
+    elif origin == "donor":  # entries the library's add_option made, taken out of another options object
+        o = H.HSTRPOptions()
+        for c, d in vals:
+            o.add_option(c, d)
+    else:
+        raise ValueError("unknown origin " + origin)
+    if [(c, bytes(d)) for c, d in o.options] != vals:
+        raise ProvenanceSetup(f"{origin} entries are {opts_s(o)}")
+    return list(o.options), vals, o
+
+
+def build_options(recipe):
+    """-> (HSTRPOptions object, the (command, data) VALUES by position, objects kept alive)"""
+    entries, vals, keep = build_pool(recipe["origin"], recipe["pool"])
+    picks, how = recipe["picks"], recipe["how"]
+    o = L.hstrp.HSTRPOptions()
+    seq = [entries[i] for i in picks]
+    if how == "assign":
+        o.options = seq
+    elif how == "append":
+        for e in seq:
+            o.options.append(e)
+    elif how == "extend-then-append":  # a relay: copy the request's entries over, then name one of them again
+        o.options.extend(seq[:-1])
+        o.options.append(seq[-1])
+    elif how == "insert-front":
+        for e in reversed(seq):
+            o.options.insert(0, e)
+    elif how == "slice-assign":
+        o.options[:] = seq
+    elif how == "iadd":
+        o.options += seq
+    elif how == "mul":
+        o.options = seq[:1] * len(seq)
+    elif how == "add_option":  # a fresh entry per call, the data objects shared
+        for e in seq:
+            o.add_option(e[0], e[1])
+    elif how == "equal-fresh":  # equal but not identical: a new entry and a new data object at every position
+        o.options = [(e[0], clone_bytes(e[1])) for e in seq]
+    else:
+        raise ValueError("unknown way to fill an option list: " + how)
+    return o, [vals[i] for i in picks], (keep, entries)
+
+
+def identity_stats(ctx, o):
+    lst = o.options
+    ids = [id(e) for e in lst]
+    if len(set(ids)) < len(ids):
+        ctx.count("prov:list-holds-one-object-several-times")
+        if ids and ids[-1] in ids[:-1]:
+            ctx.count("prov:last-entry-object-also-earlier")
+        if ids and ids[0] in ids[1:]:
+            ctx.count("prov:first-entry-object-also-later")
+    elif len(lst) > 1 and len({(c, bytes(d)) for c, d in lst}) < len(lst):
+        ctx.count("prov:equal-but-not-identical-entries")
+    dids = [id(d) for _, d in lst if len(d) > 1]
+    if len(set(dids)) < len(dids):
+        ctx.count("prov:data-object-shared-between-entries")
+
+
+def check_options_alone(ctx, o, values, inp):
+    """the options object by itself: chain written out by hand, len(), independent walk, parse and serialise again"""
+    H = L.hstrp
+    want = [(c.value, d) for c, d in values]
+    tlv = spec_tlv(want)
+    ob, ln = call(o.as_bytes), call(len, o)
+    if ob != tlv:
+        ctx.fail("hstrp-options", inp, "options.as_bytes() differs from the chain written out by hand (continuation bit on every option but the last, by POSITION)",
+                 expected=tlv.hex(), actual=repr(ob) if isinstance(ob, Exc) else ob.hex())
+        return False
+    if ln != len(tlv):
+        ctx.fail("hstrp-options-len", inp, "len(options) differs from the octets of the chain", expected=len(tlv), actual=repr(ln))
+    if want:
+        o2 = call(H.HSTRPOptions.from_bytes, tlv + b"\x11\x00\x03")
+        if isinstance(o2, Exc):
+            ctx.fail("parse-raises", inp, f"HSTRPOptions.from_bytes of a serialised chain raised {o2}", actual=repr(o2))
+        elif [(c.value, bytes(d)) for c, d in o2.options] != want or call(o2.as_bytes) != tlv or call(len, o2) != len(tlv):
+            ctx.fail("roundtrip-fields", inp, "the parsed option chain differs from the list it was serialised from", expected=",".join(f"{c}:{hx(d)}" for c, d in want), actual=safe(opts_s, o2))
+    return True
+
+
+def probe_provenance(ctx, params, pairs):
+    rng = random.Random(params["seed"])
+    recipe = params["recipe"]
+    pc = ProbeCtx(ctx, "provenance", params)
+    built = call(build_options, recipe)
+    base = {"fields": params.get("payload") or "NONE", "service": (params.get("payload") or "-").split(" ")[0]}
+    hs = {"options-from": recipe["origin"], "filled-by": recipe["how"], "same-object-at": recipe["picks"]}
+    if isinstance(built, Exc):
+        pc.fail("hstrp-options-state", dict(base, nesting="HSTRP", hstrp=hs), f"filling an option list raised {built}", actual=repr(built))
+        return
+    o, values, keep = built
+    identity_stats(ctx, o)
+    ctx.count("prov:origin-" + recipe["origin"])
+    ctx.count("prov:filled-by-" + recipe["how"])
+    ctx.count("prov:pattern-" + recipe["pattern"])
+    ctx.case(("provenance", json.dumps(recipe, sort_keys=True), params.get("payload")))
+    hs["options"] = ",".join(f"{c.value}:{hx(d)}" for c, d in values) or "-"
+    if not check_options_alone(pc, o, values, dict(base, nesting="HSTRP", hstrp=hs)):
+        return
+    p = b = None
+    if params.get("payload"):
+        p = build_from_tuple(params["payload"])
+        b = p.as_bytes()
+    check_hstrp(pc, rng, p, b, base, pairs, opts=o, spec=values, extra={"options-from": recipe["origin"], "filled-by": recipe["how"], "same-object-at": recipe["picks"]})
+    # serialising did not change the list, and a second look gives the same octets
+    if [(c, bytes(d)) for c, d in o.options] != values:
+        pc.fail("hstrp-options-state", dict(base, nesting="HSTRP", hstrp=hs), "the option list holds other values after it was serialised", expected=hs["options"], actual=safe(opts_s, o))
+    if pairs is not None and values:
+        tlv = spec_tlv([(c.value, d) for c, d in values])
+        pairs.append((f"opts.parse {hx(tlv)}", impl_opts_parse(tlv)))
+
+
+def run_provenance(ctx, rng, pairs, payloads):
+    """every origin x way of filling x identity pattern, each with a list length of its own"""
+    for _round in range(ctx.budget(1, 4)):
+        for origin in POOL_ORIGINS:
+            for how in OPT_HOWS:
+                for pattern in PICK_PATTERNS:
+                    k = rng.choice([2, 2, 3, 3, 4, 5, 8]) if rng.random() < 0.93 else rng.choice([1, 17, 130, 257])
+                    recipe = gen_recipe(rng, k, pattern, origin, how)
+                    params = {"seed": rng.randrange(2**32), "recipe": recipe, "payload": None if rng.random() < 0.25 else rng.choice(payloads)}
+                    r = call(probe_provenance, ctx, params, pairs)
+                    if isinstance(r, Exc):
+                        ctx.fail("hstrp-options-state", {"probe": "provenance", "params": params}, f"an option list of in-range entries could not be used: {r}", actual=repr(r))
+
+
+# ---- one sub-object referenced from several places ----------------------------------------------
+
+
+def hrnp_for(rng, p):
+    H = L.hrnp
+    return H.HRNP(opcode=H.HRNPOpcodes.DATA, data=p, source=pick_int(rng, 255, (0x20,)), destination=pick_int(rng, 255, (0x10,)),
+                  block_number=pick_int(rng, 255), packet_number=pick_int(rng, 65535))
+
+
+def hstrp_for(rng, p, o=None, t=None):
+    H = L.hstrp
+    if o is None:
+        o = gen_options(rng, rng.choice([0, 1, 2, 3]))
+    k = len(o.options)
+    return H.HSTRP(pkt_type=t if t is not None else gen_pkt_type(rng, k, p is not None), sn=pick_int(rng, 65535), options=o, payload=p, version=rng.choice([0, 0, 1, 255]))
+
+
+def verify_all(pc, states, expected, note, pairs):
+    """every object of the probe, as it is now: attributes = the specification values, property + fresh object + hand-written
+    wrappers + model (verify_state)"""
+    ok = True
+    for i, st in enumerate(states):
+        inp = {"alias": pc.params["kind"], "object": i, "after": note}
+        if expected is not None:
+            want, got = safe(expected[i]), safe(pdu_tuple, st.p)
+            if want != got:
+                pc.fail("built-fields", dict(inp, fields=want, service=want.split(" ")[0]), "the PDU's attributes differ from the values its (shared) sub-objects now hold", expected=want, actual=got)
+                ok = False
+                continue
+        ok = verify_state(pc, st, inp, pairs, deep=True) and ok
+    return ok
+
+
+def wrap_some(rng, states):
+    for st in states:
+        if rng.random() < 0.6:
+            st.h = hrnp_for(rng, st.p)
+        if rng.random() < 0.6:
+            st.s = hstrp_for(rng, st.p)
+            hstrp_make_consistent(st.s)
+
+
+def alias_radio_ip(pc, rng, pairs):
+    """one RadioIP object: source AND destination of a message, and the address of PDUs of other services"""
+    S = L.tmp.TMPService
+    ip = gen_ip(rng)
+    c1, c2, c3, c4 = gen_rrs(rng), gen_lp(rng), gen_tmp(rng), gen_tmp(rng)
+    c1.kw["radio_ip"] = c2.kw["radio_ip"] = ip
+    c3.kw.update(opcode=rng.choice([S.SendPrivateMessage, S.PrivateShortData, S.GroupShortData]), destination_ip=ip, source_ip=ip)
+    c3.kw.setdefault("text_data", gen_text(rng))
+    c3.kw.pop("result_code", None)
+    c4.kw["destination_ip"] = ip
+    cases = [c1, c2, c3, c4]
+    # the shared object comes from one of the library's own ways to make a RadioIP
+    octets = bytes([ip.subnet]) + ip.radio_id.to_bytes(3, "big")
+    path = rng.choice(["constructor", "constructor-id-as-octets", "from_bytes", "from_bytes-little", "from_ip"])
+    pc.count("alias:radio-ip-made-by-" + path)
+    made = {"constructor": lambda: ip.real(), "constructor-id-as-octets": lambda: L.RadioIP(radio_id=octets[1:], subnet=ip.subnet),
+            "from_bytes": lambda: L.RadioIP.from_bytes(octets), "from_bytes-little": lambda: L.RadioIP.from_bytes(octets[::-1], endian="little"),
+            "from_ip": lambda: L.RadioIP.from_ip(".".join(str(x) for x in octets))}[path]()
+    memo = {id(ip): (ip, made)}
+    states = [State(c.build(memo)) for c in cases]
+    real = memo[id(ip)][1]
+    if states[2].p.source_ip is not states[2].p.destination_ip or states[0].p.radio_ip is not real:
+        raise RuntimeError("probe setup: the RadioIP object is not shared")
+    wrap_some(rng, states)
+    exp = [c.expected for c in cases]
+    if not verify_all(pc, states, exp, "built", pairs):
+        return
+    for attr, v in (("radio_id", pick_int(rng, 2**24 - 1)), ("subnet", pick_int(rng, 255, (10,))), ("radio_id", pick_int(rng, 2**24 - 1))):
+        for st in rng.sample(states, 2):  # some are looked at before the change, some only after
+            call(st.p.as_bytes), call(len, st.p)
+        setattr(real, attr, v)
+        setattr(ip, attr, v)
+        if not verify_all(pc, states[::-1] if attr == "subnet" else states, exp[::-1] if attr == "subnet" else exp, f"{attr} of the shared RadioIP set to {v}", pairs):
+            return
+
+
+def alias_settings_dict(pc, rng, pairs):
+    """one settings dict (a plain dict or an OrderedDict) in two status-change requests; a third PDU holds a copy"""
+    C = L.rcp
+    O = C.RCPOpcode
+    targets, settings = list(C.StatusChangeNotificationTargets), list(C.StatusChangeNotificationSetting)
+    spec = {t: rng.choice(settings) for t in rng.sample(targets, rng.choice([0, 1, 3, 6]))}
+    real = collections.OrderedDict(spec) if rng.random() < 0.4 else dict(spec)
+    frozen = dict(spec)
+    mk = lambda rel, d: C.RadioControlProtocol(opcode=O.StatusChangeNotificationRequest, is_reliable=rel, status_change_settings=d)  # noqa
+    states = [State(mk(False, real)), State(mk(True, real)), State(mk(True, dict(frozen)))]
+    for st in states:
+        st.own_dict = True
+    wrap_some(rng, states)
+    tup = lambda rel, d: lambda: kw_tuple("RCP", dict(opcode=O.StatusChangeNotificationRequest, is_reliable=rel, status_change_settings=d))  # noqa
+    exp = [tup(False, spec), tup(True, spec), tup(True, frozen)]
+    if not verify_all(pc, states, exp, "built", pairs):
+        return
+    for _ in range(rng.choice([2, 3, 4])):
+        r = rng.random()
+        if r < 0.5 or not spec:
+            t, v = rng.choice(targets), rng.choice(settings)
+            real[t] = v
+            spec[t] = v
+            note = f"shared dict: [{t.value}] = {v.value}"
+        elif r < 0.8:
+            t = rng.choice(list(spec))
+            del real[t]
+            del spec[t]
+            note = f"shared dict: del [{t.value}]"
+        else:
+            real.clear()
+            spec.clear()
+            note = "shared dict: clear()"
+        if not verify_all(pc, states, exp, note, pairs):
+            return
+
+
+def alias_gps(pc, rng, pairs):
+    """one GPSData object in two location reports"""
+    S = L.lp.LocationProtocolSpecificService
+    g = gen_gps(rng, "fit")
+    cases = []
+    for _ in range(2):
+        cases.append(Case("LP", dict(opcode=S.StandardReport, request_id=pick_int(rng, 2**32 - 1), radio_ip=gen_ip(rng), is_reliable=rng.random() < 0.5,
+                                     result=rng.choice([c.value for c in L.lp.LocationProtocolResultCodes]), gpsdata=g)))
+    memo = {}
+    states = [State(c.build(memo)) for c in cases]
+    real = memo[id(g)][1]
+    if states[0].p.gpsdata is not states[1].p.gpsdata:
+        raise RuntimeError("probe setup: the GPSData object is not shared")
+    wrap_some(rng, states)
+    exp = [c.expected for c in cases]
+    if not verify_all(pc, states, exp, "built", pairs):
+        return
+    for _ in range(3):
+        which = rng.choice(["direction", "north", "east", "valid", "lat4", "speed"])
+        if which == "direction":
+            v = rng.choice([0, 1, 9, 10, 99, 100, 359])
+            real.direction = v
+        elif which == "north":
+            v = rng.random() < 0.5
+            real.north_south = "N" if v else "S"
+        elif which == "east":
+            v = rng.random() < 0.5
+            real.east_west = "E" if v else "W"
+        elif which == "valid":
+            v = rng.random() < 0.5
+            real.data_valid = "A" if v else "V"
+        elif which == "lat4":
+            v = rng.randrange(90000001)
+            real.latitude = v / 10000
+        else:
+            v = rng.choice([0.0, 0.1, 9.9, 5.0])
+            real.speed_knots = v
+        g.d[which] = v
+        if not verify_all(pc, states, exp, f"{which} of the shared GPSData set to {v}", pairs):
+            return
+
+
+def alias_bytes(pc, rng, pairs):
+    """one bytes object as the value of every opaque field of several PDUs (and as data of several HSTRP options)"""
+    T, C, H = L.tmp, L.rcp, L.hstrp
+    S, O = T.TMPService, C.RCPOpcode
+    blob = gen_blob(rng, [0, 1, 2, 4, 6, 30, 200])
+    blob = blob[: len(blob) & ~1] if rng.random() < 0.7 else blob  # even: also a text
+    even = len(blob) % 2 == 0
+    ip1, ip2 = gen_ip(rng), gen_ip(rng)
+    cases = [
+        Case("TMP", dict(opcode=S.SendPrivateMessage if even else S.PrivateShortData, has_option=True, option_data=blob, text_data=blob if even else b"", short_data=blob,
+                         request_id=pick_int(rng, 2**32 - 1), destination_ip=ip1, source_ip=ip2)),
+        Case("TMP", dict(opcode=S.GroupShortData, has_option=rng.random() < 0.5, option_data=blob, short_data=blob, request_id=1, destination_ip=ip2, source_ip=ip1)),
+        Case("RCP", dict(opcode=O.UnknownService, raw_opcode=gen_raw_opcode(rng), raw_payload=blob)),
+        Case("RCP", dict(opcode=O.ZoneAndChannelOperationReply, raw_payload=blob, is_reliable=True)),
+        Case("RCP", dict(opcode=O.SendTalkerAliasRequest, call_type=rng.choice(list(C.RCPCallType)), sender_id=pick_int(rng, 2**32 - 1), target_id=pick_int(rng, 2**32 - 1),
+                         talker_alias_format=rng.choice(list(L.TAF)), talker_alias_data=blob)),
+    ]
+    states = [State(c.build()) for c in cases]
+    for st in states:
+        o = H.HSTRPOptions()
+        for c in rng.sample(list(H.HSTRPOptionType), 3):
+            o.add_option(c, blob)  # three entries, one data object
+        st.s = hstrp_for(rng, st.p, o)
+        hstrp_make_consistent(st.s)
+        if rng.random() < 0.5:
+            st.h = hrnp_for(rng, st.p)
+    exp = [c.expected for c in cases]
+    verify_all(pc, states, exp, "built", pairs) and verify_all(pc, states[::-1], exp[::-1], "looked at again, in the other order", pairs)
+
+
+def hstrp_objects_ok(pc, objs, fb_of, note, pairs):
+    ok = True
+    for i, s in enumerate(objs):
+        n0 = len(pc.failures)
+        tup = "NONE" if s.payload is None else safe(pdu_tuple, s.payload)
+        si = {"alias": pc.params["kind"], "object": i, "after": note, "nesting": "HSTRP", "fields": tup, "service": tup.split(" ")[0]}
+        verify_hstrp_now(pc, s, fb_of(s), si, True, pairs, tup)
+        ok = ok and len(pc.failures) == n0
+    return ok
+
+
+def alias_options(pc, rng, pairs):
+    """the option lists of several packets share the options object / the list object / the entry objects; the packet type
+    object is shared as well; changes go through one of the references"""
+    H = L.hstrp
+    recipe = gen_recipe(rng, rng.choice([2, 3, 4, 6]))
+    o1, _values, keep = build_options(recipe)
+    t = H.HSTRPPacketType(have_options=True, is_ack=rng.random() < 0.5)
+    gens = [gen_rrs, gen_lp, gen_tmp, gen_rcp]
+    p1, p2 = rng.choice(gens)(rng).build(), rng.choice(gens)(rng).build()
+    fresh = {}
+
+    def fb_of(s):
+        if s.payload is None:
+            return b""
+        if id(s.payload) not in fresh:
+            fresh[id(s.payload)] = build_from_tuple(pdu_tuple(s.payload)).as_bytes()
+        return fresh[id(s.payload)]
+
+    o3, o4, o5 = H.HSTRPOptions(), H.HSTRPOptions(), H.HSTRPOptions()
+    o3.options = o1.options  # another options object, the SAME list object
+    o4.options = o1.options[1:] + o1.options[:1]  # another list of the same entry objects: its last entry is o1's first
+    o5.options = o1.options[:-1] or o1.options[:]  # … its last entry is one of o1's inner entries
+    objs = [
+        H.HSTRP(pkt_type=t, sn=pick_int(rng, 65535), options=o1, payload=p1),
+        H.HSTRP(pkt_type=t, sn=pick_int(rng, 65535), options=o1, payload=None),  # same packet type object, same options object
+        H.HSTRP(pkt_type=H.HSTRPPacketType(have_options=True), sn=pick_int(rng, 65535), options=o3, payload=p2),
+        H.HSTRP(pkt_type=H.HSTRPPacketType(have_options=True, is_connect=True), sn=pick_int(rng, 65535), options=o4, payload=p1, version=1),
+        H.HSTRP(pkt_type=H.HSTRPPacketType(have_options=True), sn=pick_int(rng, 65535), options=o5, payload=None),
+    ]
+    if not hstrp_objects_ok(pc, objs, fb_of, "built", pairs):
+        return
+    for _ in range(rng.choice([2, 3, 5])):
+        r = rng.random()
+        if r < 0.25:
+            c, d = rng.choice(list(H.HSTRPOptionType)), gen_bytes(rng, rng.choice([0, 1, 4]))
+            rng.choice([o1, o3]).add_option(c, d)
+            note = f"add_option({c.value}, {hx(d)}) through one of the two options objects that share the list"
+        elif r < 0.5:
+            i = rng.randrange(len(o1.options))
+            o1.options.append(o1.options[i])
+            note = f"entry {i} of the shared list appended to it once more (the same object)"
+        elif r < 0.65:
+            i = rng.randrange(len(o4.options))
+            o4.options.append(o4.options[i])
+            note = f"entry {i} of the rotated list appended to it once more (the same object)"
+        elif r < 0.8 and len(o1.options) > 1:
+            i = rng.randrange(len(o1.options))
+            o1.options.pop(i)
+            note = f"entry {i} popped from the shared list"
+        else:
+            a = rng.choice(["is_ack", "is_reject", "is_close", "is_connect"])
+            setattr(t, a, not getattr(t, a))
+            note = f"{a} of the shared packet type object flipped"
+        if not hstrp_objects_ok(pc, objs, fb_of, note, pairs):
+            return
+
+
+def alias_payload(pc, rng, pairs):
+    """one PDU object inside an HRNP packet and two HSTRP packets at once; objects made by one parser nested by hand into
+    the other wrapper (HRNP.from_bytes(...).data into HSTRP, HSTRP.from_bytes(...).payload / .options / .pkt_type into new packets)"""
+    H, N = L.hstrp, L.hrnp
+    gens = [gen_rrs, gen_lp, gen_tmp, gen_rcp]
+    c = rng.choice(gens)(rng)
+    p = c.build()
+    origin = rng.choice(["built", "from-hrnp-parser", "from-hstrp-parser", "hrnp-constructor-given-octets", "deepcopy"])
+    opts0 = None
+    if origin == "from-hrnp-parser":
+        p = N.HRNP.from_bytes(hrnp_for(rng, p).as_bytes()).data
+    elif origin == "hrnp-constructor-given-octets":  # HRNP(data=<bytes>) parses them itself
+        p = N.HRNP(opcode=N.HRNPOpcodes.DATA, data=p.as_bytes(), packet_number=pick_int(rng, 65535)).data
+    elif origin == "deepcopy":
+        p = copy.deepcopy(p)
+    elif origin == "from-hstrp-parser":
+        s0 = H.HSTRP.from_bytes(hstrp_for(rng, p, gen_options(rng, rng.choice([1, 2, 3])), H.HSTRPPacketType(have_options=True)).as_bytes())
+        p, opts0 = s0.payload, s0.options
+    pc.count("alias:payload-" + origin)
+    st = State(p)
+    st.h = hrnp_for(rng, p)
+    st.s = hstrp_for(rng, p, opts0)
+    hstrp_make_consistent(st.s)
+    other = hstrp_for(rng, p, opts0)  # a second packet around the same payload (and, when parsed, the same options object)
+    hstrp_make_consistent(other)
+    if opts0 is not None and rng.random() < 0.6:
+        opts0.options.append(opts0.options[0])  # the parser's own entry named again at the end
+    exp = [c.expected] if origin == "built" else None
+    for i in range(3):
+        note = "built" if i == 0 else f"step {i}"
+        if i:
+            step = mutation(rng, st)
+            note = json.dumps(step)
+            r = call(apply_step, st, step)
+            if isinstance(r, Exc):
+                pc.fail("history-step-raises", {"alias": pc.params["kind"], "after": note}, f"step on an in-range object raised {r}", actual=repr(r))
+                return
+            other.payload = st.p
+            exp = None
+        if not verify_all(pc, [st], exp, note, pairs):
+            return
+        tup = safe(pdu_tuple, st.p)
+        fb = build_from_tuple(tup).as_bytes()
+        n0 = len(pc.failures)
+        verify_hstrp_now(pc, other, fb, {"alias": pc.params["kind"], "object": "second HSTRP packet", "after": note, "nesting": "HSTRP", "fields": tup, "service": tup.split(" ")[0]}, True, pairs, tup)
+        if len(pc.failures) != n0:
+            return
+
+
+ALIAS_KINDS = {"radio-ip": alias_radio_ip, "settings-dict": alias_settings_dict, "gps": alias_gps, "bytes": alias_bytes,
+               "options": alias_options, "payload": alias_payload}
+
+
+def probe_alias(ctx, params, pairs):
+    rng = random.Random(params["seed"])
+    pc = ProbeCtx(ctx, "alias", params)
+    ctx.count("alias:" + params["kind"])
+    ctx.case(("alias", params["kind"], params["seed"]))
+    r = call(ALIAS_KINDS[params["kind"]], pc, rng, pairs)
+    if isinstance(r, Exc):
+        pc.fail("history-step-raises", {"alias": params["kind"]}, f"in-range PDUs that share a sub-object could not be built / observed: {r}", actual=repr(r))
+
+
+def run_alias(ctx, rng, pairs):
+    for _ in range(ctx.budget(8, 60)):
+        for kind in ALIAS_KINDS:
+            probe_alias(ctx, {"kind": kind, "seed": rng.randrange(2**32)}, pairs)
+            if kind == "options":  # the class the identity idiom lives in: twice the share
+                probe_alias(ctx, {"kind": kind, "seed": rng.randrange(2**32)}, pairs)
+
+
+# ---- the call stack ------------------------------------------------------------------------------
+
+DEEP_REMAINING = 100  # frames left below the interpreter's recursion limit; the library needs about a dozen
+
+
+def at_depth(remaining, fn):
+    """fn() called with only `remaining` frames left below the recursion limit (what a handler deep inside an event loop,
+    a test runner or a recursive caller gets)"""
+    depth, f = 0, sys._getframe()
+    while f is not None:
+        depth, f = depth + 1, f.f_back
+    n = sys.getrecursionlimit() - depth - remaining
+
+    def down(k):
+        return fn() if k <= 0 else down(k - 1)
+
+    return down(n)
+
+
+def deep_compare(pc, inp, label, fn):
+    """the same call near the top of the stack and deep inside it"""
+    shallow = safe(fn)
+    deep = call(at_depth, DEEP_REMAINING, lambda: safe(fn))
+    pc.count("deep-stack:compared")
+    if deep != shallow:
+        pc.fail("deep-stack-differs", dict(inp, stack_remaining=DEEP_REMAINING), f"{label} gives another answer when called {DEEP_REMAINING} frames below the recursion limit",
+                expected=shallow, actual=repr(deep) if isinstance(deep, Exc) else deep)
+        return False
+    return True
+
+
+# ---- size extremes inside one PDU ----------------------------------------------------------------
+
+MAXP = 65535  # the most a 16-bit length field can say
+TMP_HEAD = 12  # request id, destination, source
+HRNP_MAXP = MAXP - 12 - 7  # payload of the largest HDAP that fits an HRNP packet
+
+
+def fill(n, pattern, seed):
+    if pattern == "ff":
+        return b"\xff" * n
+    if pattern == "00":
+        return b"\x00" * n
+    if pattern == "etx":
+        return b"\x03" * n
+    if pattern == "7e":
+        return b"\x7e" * n
+    if pattern == "inc":
+        return (bytes(range(256)) * (n // 256 + 1))[:n]
+    if pattern == "ascii16":
+        return (b"A\x00" * (n // 2 + 1))[:n]
+    return random.Random(seed).randbytes(n)
+
+
+def text_of(n, pattern, seed, as_str):
+    """a text of n octets (n even)"""
+    if pattern == "nonbmp":
+        cps = [0x1F600] * (n // 4) + [0x41] * ((n % 4) // 2)
+    elif pattern == "ascii16":
+        cps = [0x41] * (n // 2)
+    elif pattern == "ff":
+        cps = [0xFFFF] * (n // 2)
+    elif pattern == "bom":
+        cps = [0xFEFF] * (n // 2)
+    else:
+        cps = spec_utf16le_decode(fill(n, pattern, seed))
+    return Text(cps, as_str)
+
+
+def size_case(r):
+    """the PDU of a size recipe, as a Case of specification values"""
+    seed = r["seed"]
+    rng = random.Random(seed)
+    w, n, pat = r["what"], r.get("octets", 0), r.get("pattern", "random")
+    T, C = L.tmp, L.rcp
+    S, O = T.TMPService, C.RCPOpcode
+    rel = rng.random() < 0.5
+    if w.startswith("tmp-"):
+        kw = dict(is_reliable=rel, is_confirmed=rng.random() < 0.5, request_id=pick_int(rng, 2**32 - 1), destination_ip=gen_ip(rng), source_ip=gen_ip(rng))
+        if r.get("option") is not None:
+            kw.update(has_option=True, option_data=fill(r["option"], r.get("option_pattern", "random"), seed + 1))
+        if w == "tmp-text":
+            kw.update(opcode=S.SendGroupMessage if r.get("group") else S.SendPrivateMessage, text_data=text_of(n, pat, seed, r.get("as") == "str"))
+        else:
+            kw.update(opcode=S.GroupShortData if r.get("group") else S.PrivateShortData, short_data=fill(n, pat, seed))
+        return Case("TMP", kw)
+    if w == "rcp-unknown":
+        return Case("RCP", dict(opcode=O.UnknownService, is_reliable=rel, raw_opcode=gen_raw_opcode(rng), raw_payload=fill(n, pat, seed)))
+    if w == "rcp-zone-reply":
+        return Case("RCP", dict(opcode=O.ZoneAndChannelOperationReply, is_reliable=rel, raw_payload=fill(n, pat, seed)))
+    if w == "rcp-bcast-config":
+        return Case("RCP", dict(opcode=O.BroadcastStatusConfigurationRequest, is_reliable=rel, broadcast_config_raw=bytes([r["n"]]) + fill(2 * r["n"], pat, seed)))
+    if w == "rcp-talker-alias":
+        return Case("RCP", dict(opcode=O.SendTalkerAliasRequest, is_reliable=rel, call_type=rng.choice(list(C.RCPCallType)), sender_id=pick_int(rng, 2**32 - 1),
+                                target_id=pick_int(rng, 2**32 - 1), talker_alias_format=rng.choice(list(L.TAF)), talker_alias_data=fill(n, pat, seed)))
+    if w == "rcp-status-all":
+        targets = list(C.StatusChangeNotificationTargets)
+        if r.get("order") == "reverse":
+            targets.reverse()
+        elif r.get("order") == "shuffled":
+            rng.shuffle(targets)
+        return Case("RCP", dict(opcode=O.StatusChangeNotificationRequest, is_reliable=rel,
+                                status_change_settings={t: rng.choice(list(C.StatusChangeNotificationSetting)) for t in targets}))
+    raise ValueError("unknown size recipe " + w)
+
+
+def chain_values(r):
+    """the option chain of a size recipe: k options, data length fixed / natural / mixed"""
+    H = L.hstrp
+    rng = random.Random(r["seed"])
+    types = list(H.HSTRPOptionType)
+    out = []
+    dl = r.get("data_len", 0)
+    for i in range(r["k"]):
+        c = types[i % len(types)] if r.get("cmd") != "rtp" else H.HSTRPOptionType.RTP
+        if dl == "natural":
+            n = {H.HSTRPOptionType.RTP: 0, H.HSTRPOptionType.DeviceID: 4}.get(c, 1)
+        elif dl == "mixed":
+            n = rng.choice([0, 0, 1, 4, 127, 128, 255])
+        else:
+            n = dl
+        out.append((c, bytes([(i + j) & 0xFF for j in range(n)]) if n else b""))
+    return out
+
+
+def probe_size(ctx, params, pairs):
+    r = params
+    rng = random.Random(r["seed"])
+    pc = ProbeCtx(ctx, "size", params)
+    ctx.count("size:" + r["what"])
+    ctx.case(("size", json.dumps(r, sort_keys=True)))
+    H = L.hstrp
+    if r["what"] == "option-data-over":
+        # not in range: the length octet cannot say 256.  Refusing is fine, a chain that reads back as something else is not
+        values = [(H.HSTRPOptionType.DeviceID, b"\x01\x02\x03\x04"), (H.HSTRPOptionType.ChannelID, fill(r["octets"], r.get("pattern", "random"), r["seed"])), (H.HSTRPOptionType.RTP, b"")]
+        o = H.HSTRPOptions()
+        for c, d in values:
+            o.add_option(c, d)
+        ob = call(o.as_bytes)
+        ctx.count("size:over-limit-refused" if isinstance(ob, Exc) else "size:over-limit-serialised")
+        if not isinstance(ob, Exc):
+            w = call(spec_walk_options, ob)
+            if isinstance(w, Exc) or w[0] != [(c.value, d) for c, d in values]:
+                pc.fail("hstrp-options", {"nesting": "HSTRP", "hstrp": {"options": f"option data of {r['octets']} octets"}, "fields": "NONE", "service": "-"},
+                        "option data longer than 255 octets was serialised; the chain does not read back as the list", expected="an exception", actual=abbr(ob.hex()))
+        return
+    if r["what"] == "options":
+        values = chain_values(r)
+        o = H.HSTRPOptions()
+        if r.get("filled-by") == "assign":
+            o.options = list(values)
+        else:
+            for c, d in values:
+                o.add_option(c, d)
+        p = b = None
+        if r.get("payload"):
+            p = gen_rrs(rng).build()
+            b = p.as_bytes()
+        base = {"fields": "NONE" if p is None else safe(pdu_tuple, p), "service": "-" if p is None else "RRS"}
+        hs = {"options": f"{r['k']} options, data {r.get('data_len', 0)}"}
+        ctx.count("size:option-chain-" + ("<1000" if r["k"] < 990 else "1000.." if r["k"] < 10000 else ">=10000"))
+        if not check_options_alone(pc, o, values, dict(base, nesting="HSTRP", hstrp=hs)):
+            return
+        big = pairs if r.get("correspond", True) else None
+        sb = check_hstrp(pc, rng, p, b, base, big, opts=o, spec=values)
+        tlv = spec_tlv([(c.value, d) for c, d in values])
+        if big is not None:
+            big.append((f"opts.parse {hx(tlv)}", impl_opts_parse(tlv)))
+        if r.get("deep") and sb is not None:
+            inp = dict(base, nesting="HSTRP", hstrp=hs)
+            deep_compare(pc, inp, "HSTRPOptions.as_bytes / len", lambda: hx(o.as_bytes()) + " " + str(len(o)))
+            deep_compare(pc, inp, "HSTRPOptions.from_bytes", lambda: impl_opts_parse(tlv))
+            deep_compare(pc, inp, "HSTRP.from_bytes + as_bytes", lambda: impl_hstrp_parse(sb))
+        return
+    c = size_case(r)
+    over = r.get("over")  # "hdap": the payload is longer than the length field can say; "hrnp": the HDAP does not fit an HRNP packet
+    p = call(c.build)
+    if isinstance(p, Exc):
+        if over != "hdap":
+            pc.fail("construct-raises", {"service": c.svc}, f"constructing an in-range {c.svc} PDU raised {p}", actual=repr(p))
+        return
+    inp = input_of(p, case=c)
+    if over == "hdap":
+        # not in range: the frame cannot say this length.  Refusing is fine, a frame with another length in it is not
+        b = call(p.as_bytes)
+        ctx.count("size:over-limit-refused" if isinstance(b, Exc) else "size:over-limit-serialised")
+        if not isinstance(b, Exc):
+            n = int.from_bytes(b[3:5], "little" if c.svc in LITTLE else "big")
+            pc.fail("frame-length-field", inp, "a payload longer than 65535 octets was serialised; the length field cannot be the payload length", expected=len(b) - 7, actual=n)
+        return
+    check_built(pc, p, inp)
+    b = check_frame(pc, p, inp)
+    if b is None:
+        return
+    ctx.count("size:payload-" + ("65535" if len(b) - 7 == MAXP else ">=32768" if len(b) - 7 >= 32768 else ">=4096" if len(b) - 7 >= 4096 else "<4096"))
+    check_roundtrip(pc, p, b, inp)
+    big = pairs if r.get("correspond", True) else None
+    if big is not None:
+        big.append(("hdap.mk " + inp["fields"], hx(b) + " " + str(call(len, p))))
+        big.append(("hdap.parse " + hx(b), impl_hdap_parse(b)))
+        if c.text is not None:
+            big.append(text_pair(c.text))
+    if len(b) + 12 <= MAXP:
+        if len(b) + 12 >= MAXP - 1:
+            ctx.count("size:hrnp-at-16-bit-limit")
+        check_hrnp(pc, rng, p, b, inp, big)
+    else:
+        # the HRNP length field cannot say 12 + len(HDAP): refusing is fine, a packet with another length in it is not
+        h = call(hrnp_for, rng, p)
+        hb = call(h.as_bytes) if not isinstance(h, Exc) else h
+        ctx.count("size:hrnp-over-limit-refused" if isinstance(hb, Exc) else "size:hrnp-over-limit-serialised")
+        if not isinstance(hb, Exc):
+            pc.fail("hrnp-length", dict(inp, nesting="HRNP"), "an HDAP of more than 65523 octets was wrapped in HRNP; the length field cannot be the packet length",
+                    expected=12 + len(b), actual=int.from_bytes(hb[8:10], "big"))
+    sb = check_hstrp(pc, rng, p, b, inp, big, k=r.get("hstrp_k", rng.choice([0, 1, 2, 3])))
+    if r.get("deep"):
+        deep_compare(pc, inp, "as_bytes / len", lambda: bytes_len(p))
+        deep_compare(pc, inp, "HDAP.from_bytes + as_bytes", lambda: impl_hdap_parse(b))
+        deep_compare(pc, inp, "constructor", lambda: bytes_len(c.build()))
+        if sb is not None:
+            deep_compare(pc, dict(inp, nesting="HSTRP"), "HSTRP.from_bytes + as_bytes", lambda: impl_hstrp_parse(sb))
+        if len(b) + 12 <= MAXP:
+            h = hrnp_for(rng, p)
+            deep_compare(pc, dict(inp, nesting="HRNP"), "HRNP.as_bytes + from_bytes", lambda: impl_hrnp_parse(h.as_bytes()))
+
+
+def size_recipes(ctx, rng):
+    """the fixed list of extremes (quick) plus, thorough, the neighbours of every threshold"""
+    R = []
+    add = lambda **kw: R.append(dict(kw, seed=rng.randrange(2**32)))  # noqa
+    oracle_only = {} if ctx.thorough() else {"correspond": False}  # quick: the model answers about half of the 64 kB packets
+    tmax = MAXP - TMP_HEAD  # 65523: most octets of text / short data without option data
+    hmax = HRNP_MAXP - TMP_HEAD  # 65504: … that still fit an HRNP packet
+    # TMP text / short data / option data at the limits of the HDAP and of the HRNP length field
+    add(what="tmp-text", octets=tmax - 1, pattern="ff", deep=True)
+    add(what="tmp-text", octets=tmax - 1, pattern="nonbmp", **{"as": "str"}, **oracle_only)
+    add(what="tmp-text", octets=hmax, pattern="ascii16", **{"as": "str"}, group=True)
+    add(what="tmp-text", octets=hmax, pattern="ff", hstrp_k=255)
+    add(what="tmp-text", octets=hmax - 2, pattern="random", **oracle_only)
+    add(what="tmp-short", octets=tmax, pattern="random")
+    add(what="tmp-short", octets=hmax - 1, pattern="etx", group=True, **oracle_only)
+    add(what="tmp-text", octets=40, pattern="bom", option=MAXP - TMP_HEAD - 2 - 40, option_pattern="inc")
+    add(what="tmp-text", octets=32768, pattern="random", option=MAXP - TMP_HEAD - 2 - 32768, option_pattern="ff")
+    add(what="tmp-short", octets=0, option=hmax - 2, option_pattern="00", **oracle_only)
+    # RCP raw payloads, counted lists at the most their count octet can say
+    add(what="rcp-unknown", octets=MAXP, pattern="etx", deep=True)
+    add(what="rcp-unknown", octets=HRNP_MAXP, pattern="ff")
+    add(what="rcp-zone-reply", octets=MAXP, pattern="inc")
+    add(what="rcp-zone-reply", octets=HRNP_MAXP - 1, pattern="random", **oracle_only)
+    add(what="rcp-bcast-config", n=255, pattern="random")
+    add(what="rcp-bcast-config", n=128, pattern="ff")
+    add(what="rcp-talker-alias", octets=255, pattern="ff")
+    add(what="rcp-status-all", order=rng.choice(["forward", "reverse", "shuffled"]))
+    # one past the limits: refuse or be right
+    add(what="tmp-text", octets=tmax + 1, pattern="ascii16", over="hdap")
+    add(what="rcp-unknown", octets=MAXP + 1, pattern="00", over="hdap")
+    add(what="rcp-unknown", octets=HRNP_MAXP + 1, pattern="random", over="hrnp", **oracle_only)
+    add(what="option-data-over", octets=256, pattern="random")
+    add(what="option-data-over", octets=rng.choice([257, 384, 511, 512, 65536]), pattern="ff")
+    # thresholds a shortcut may have inside (one octet, signed 16 bit, 4 k buffers)
+    for n in (255, 256, 4095, 4096, 32767, 32768):
+        add(what=rng.choice(["rcp-unknown", "rcp-zone-reply", "tmp-short"]), octets=n, pattern=rng.choice(["random", "ff", "etx"]))
+    # option chains inside ONE packet: counters, the interpreter's recursion limit, a full datagram
+    add(what="options", k=128, data_len=0)
+    add(what="options", k=256, data_len="natural", payload=True)
+    add(what="options", k=1000, data_len=0, deep=True)
+    add(what="options", k=1000, data_len="natural", payload=True, **{"filled-by": "assign"})
+    add(what="options", k=5000, data_len=0, payload=True)
+    add(what="options", k=20000, data_len=0, deep=True)
+    add(what="options", k=32760, data_len=0, cmd="rtp")  # 65 520 octets of options: what one UDP datagram can carry
+    add(what="options", k=255, data_len=255)  # every option at the most its length octet can say
+    add(what="options", k=600, data_len="mixed", payload=True)
+    add(what="options", k=90, data_len="natural", deep=True, payload=True)  # short chain, deep stack
+    if ctx.thorough():
+        for n in (tmax - 3, tmax - 5, hmax - 4, 65536 // 2 - 2, 65536 // 2 + 2, 16384, 49152):
+            add(what="tmp-text", octets=n, pattern=rng.choice(["random", "nonbmp", "ff", "bom"]), **{"as": rng.choice(["str", "octets"])}, deep=rng.random() < 0.3)
+        for n in (MAXP - 1, MAXP - 2, HRNP_MAXP - 1, HRNP_MAXP - 2, 257, 1023, 1024, 16383, 16384, 49151, 65279, 65280):
+            add(what=rng.choice(["rcp-unknown", "rcp-zone-reply"]), octets=n, pattern=rng.choice(["random", "ff", "00", "etx", "7e", "inc"]))
+            add(what="tmp-short", octets=min(n, tmax), pattern="random", group=rng.random() < 0.5)
+        for n in (0, 1, 127, 129, 254):
+            add(what="rcp-bcast-config", n=n, pattern="random")
+        for k in (127, 129, 255, 257, 990, 999, 1001, 1024, 2000, 4096, 10000, 32767, 32768, 40000, 65535, 65536, 70000):
+            add(what="options", k=k, data_len=rng.choice([0, 0, "natural"]), payload=rng.random() < 0.5, deep=rng.random() < 0.3, **{"filled-by": rng.choice(["add_option", "assign"])})
+        for k, dl in ((2000, 30), (500, 128), (257, 255), (3000, "mixed")):
+            add(what="options", k=k, data_len=dl, payload=True)
+    return R
+
+
+def run_sizes(ctx, rng, pairs):
+    for r in size_recipes(ctx, rng):
+        x = call(probe_size, ctx, r, pairs)
+        if isinstance(x, Exc):
+            ctx.fail("serialise-raises", {"probe": "size", "params": r}, f"a PDU at a size extreme could not be built / serialised / parsed: {x}", actual=repr(x))
+
+
+# ---- ambient interpreter / process state ---------------------------------------------------------
+
+
+def ambient_items(rng, n):
+    """a fixed sample: field tuples with the wrappers' own fields (everything json-able: the child process gets the same)"""
+    gens = [gen_rrs, gen_lp, gen_tmp, gen_rcp]
+    out = []
+    while len(out) < n:
+        c = gens[len(out) % 4](rng)
+        t = safe(c.expected)
+        if t.startswith("ERR"):
+            continue
+        k = rng.choice([0, 1, 2, 3, 3, 40, 120])
+        ty = gen_pkt_type(rng, k, True)
+        out.append({"fields": t, "text_as": "str" if (c.text is not None and c.text.as_str) else "octets",
+                    "hrnp": [pick_int(rng, 255), pick_int(rng, 255), pick_int(rng, 255), pick_int(rng, 65535)],
+                    "hstrp": {"type": ty.as_bytes()[0], "sn": pick_int(rng, 65535), "version": rng.choice([0, 1, 255]),
+                              "options": [[c2.value, d.hex()] for c2, d in gen_option_list(rng, k)]}})
+    return out
+
+
+def eval_item(it):
+    """canonical answers of the real code for one item: build, serialise, parse, the same inside HRNP and HSTRP"""
+    H, N = L.hstrp, L.hrnp
+    out = []
+    p = call(build_from_tuple, it["fields"], it["text_as"])
+    if isinstance(p, Exc):
+        return [repr(p)]
+    out.append(safe(pdu_tuple, p) + " => " + bytes_len(p))
+    b = call(p.as_bytes)
+    if isinstance(b, Exc):
+        return out
+    out.append(impl_hdap_parse(b))
+
+    def hrnp():
+        src, dst, blk, pn = it["hrnp"]
+        h = N.HRNP(opcode=N.HRNPOpcodes.DATA, data=p, source=src, destination=dst, block_number=blk, packet_number=pn)
+        hb = h.as_bytes()
+        return hx(hb) + " " + str(len(h)) + " | " + impl_hrnp_parse(hb)
+
+    def hstrp():
+        o = H.HSTRPOptions()
+        for c, d in it["hstrp"]["options"]:
+            o.add_option(member(H.HSTRPOptionType, c), bytes.fromhex(d))
+        s = H.HSTRP(pkt_type=H.HSTRPPacketType.from_bytes(bytes([it["hstrp"]["type"]])), sn=it["hstrp"]["sn"], options=o, payload=p, version=it["hstrp"]["version"])
+        sb = s.as_bytes()
+        return hx(sb) + " " + str(len(o)) + " | " + impl_hstrp_parse(sb)
+
+    out.append(safe(hrnp))
+    out.append(safe(hstrp))
+    return out
+
+
+class _Broken:
+    """a standard stream whose reader went away"""
+
+    encoding, errors, closed = "utf-8", "strict", False
+
+    def _fail(self, *a, **k):
+        raise OSError(32, "Broken pipe")
+
+    write = writelines = flush = _fail
+
+    def isatty(self):
+        return False
+
+    def fileno(self):
+        raise OSError(9, "Bad file descriptor")
+
+
+class _Formatting(logging.Handler):
+    """what a configured application has: every record is formatted (lazily formatted arguments are consumed); the text goes nowhere"""
+
+    def emit(self, record):
+        try:
+            record.getMessage()
+        except Exception:  # noqa  (a real handler reports the formatting error on stderr and goes on)
+            pass
+
+
+GARBAGE = [b"", b"\x00", b"2B", b"2B\x00\x20\x00\x01\x83", b"\x7e\x04\x00\x00", b"\x7e\x04\x00\x00\x20\x10\x00\x00\xff\xff\x00\x00", b"\x09\x00\xa1\x00", b"\x02\x41\x08",
+           b"\x08\xa0\x02\x00\x32" + b"\x00" * 10, b"\x11\x00\x80\x00\x09\x0a", b"\x55" * 9, b"2B\x00\x20\x00\x01" + b"\x81\x00" * 5, b"\x91\x00\x80\x00\x09\x0a\x00\x00\x50\x00\x00\x00\x00\x00\x31\x03"]
+
+
+def failing_calls(rng):
+    """calls that raise (wrong lengths / values / types): whatever they leave behind must not change the next valid call"""
+    H, N = L.hstrp, L.hrnp
+    g = rng.choice(GARBAGE)
+    for f in (L.hdap.HDAP.from_bytes, N.HRNP.from_bytes, H.HSTRP.from_bytes, H.HSTRPOptions.from_bytes, L.RadioIP.from_bytes, L.lp.GPSData.from_bytes):
+        call(f, g)
+    call(L.rrs.RadioRegistrationService, opcode=L.rrs.RRSTypes.RadioRegistrationAnswer, radio_ip=L.RadioIP(radio_id=1), renew_time_seconds=0)
+    call(L.tmp.TextMessageProtocol(opcode=L.tmp.TMPService.SendPrivateMessage).as_bytes)  # no addresses: AttributeError
+    call(L.rcp.RadioControlProtocol(opcode=L.rcp.RCPOpcode.RadioIDAndRadioIPQueryReply, raw_value=b"\x01").as_bytes)
+    call(L.rcp.RadioControlProtocol(opcode=L.rcp.RCPOpcode.CallRequest, target_id=2**32).as_bytes)
+    call(N.HRNP(opcode=N.HRNPOpcodes.DATA, data=None).as_bytes)
+    o = H.HSTRPOptions()
+    o.options = [(H.HSTRPOptionType.RTP, b"\x00" * 256)]
+    call(o.as_bytes)
+    call(H.HSTRP(pkt_type=H.HSTRPPacketType(), sn=70000).as_bytes)
+
+
+def ambient_setting(name):
+    """context manager of one ambient setting"""
+    import contextlib
+
+    @contextlib.contextmanager
+    def logging_and_streams():
+        root = logging.getLogger()
+        names = [n for n in list(logging.root.manager.loggerDict) if n.startswith("okdmr") or n in ("HDAP", "HSTRP", "LocationProtocol", "RadioControlProtocol", "TextMessageProtocol", "RadioRegistrationService")]
+        saved = (root.level, list(root.handlers), logging.root.manager.disable, [(n, logging.getLogger(n).level) for n in names], sys.stdout, sys.stderr)
+        h = _Formatting()
+        try:
+            logging.disable(logging.NOTSET)
+            root.setLevel(logging.DEBUG)
+            root.addHandler(h)
+            for n in names:
+                logging.getLogger(n).setLevel(logging.DEBUG)
+            sys.stdout = sys.stderr = _Broken()
+            yield
+        finally:
+            sys.stdout, sys.stderr = saved[4], saved[5]
+            root.setLevel(saved[0])
+            root.handlers[:] = saved[1]
+            logging.disable(saved[2])
+            for n, lv in saved[3]:
+                logging.getLogger(n).setLevel(lv)
+
+    @contextlib.contextmanager
+    def nothing():
+        yield
+
+    return logging_and_streams() if name == "logging-debug+dead-stdout-stderr" else nothing()
+
+
+AMBIENT = ("deep-stack", "logging-debug+dead-stdout-stderr", "failing-calls-in-between", "random-reseeded")
+
+
+def eval_under(name, items, frng):
+    """the items answered under one in-process ambient setting (everything restored afterwards)"""
+    state = random.getstate()
+    got = []
+    try:
+        with ambient_setting(name):
+            for i, it in enumerate(items):
+                if name == "deep-stack":
+                    got.append(call(at_depth, DEEP_REMAINING, lambda: eval_item(it)))
+                    continue
+                if name == "failing-calls-in-between":
+                    call(failing_calls, frng)
+                elif name == "random-reseeded":
+                    random.seed(i % 3)
+                got.append(eval_item(it))
+    finally:
+        random.setstate(state)
+    return got
+
+
+def run_ambient(ctx, rng):
+    items = ambient_items(rng, ctx.budget(160, 800))
+    base = [eval_item(it) for it in items]
+    child = child_start(items)
+    fseed = rng.randrange(2**32)
+    for name in AMBIENT:
+        ambient_compare(ctx, name, items, base, eval_under(name, items, random.Random(fseed)), fseed)
+    ambient_compare(ctx, CHILD, items, base, child_result(child), fseed)
+
+
+CHILD = "child python -O"
+
+
+def ambient_compare(ctx, name, items, base, got, fseed):
+    ctx.count("ambient:" + name, len(items))
+    bad = 0
+    for it, a, b in zip(items, base, got):
+        if a != b and bad < 3:
+            bad += 1
+            which = next((i for i, (x, y) in enumerate(zip(a, b)) if x != y), len(a)) if isinstance(b, list) else 0
+            ctx.fail("ambient-dependent-result", {"probe": "ambient", "params": {"setting": name, "item": it, "fseed": fseed}, "ambient": name, "fields": abbr(it["fields"]), "service": it["fields"].split(" ")[0],
+                                                  "layer": ["build+serialise", "parse", "HRNP", "HSTRP"][min(which, 3)]},
+                     f"the same PDU gives another answer under [{name}]", expected=abbr(a[which] if which < len(a) else a), actual=abbr(b[which] if isinstance(b, list) and which < len(b) else repr(b)))
+
+
+HARNESS_DIR = os.path.dirname(os.path.dirname(os.path.abspath(__file__)))
+
+
+def child_start(items):
+    """ONE child interpreter `python -O` (asserts stripped, __debug__ False) answers the same items; job and answer travel in files"""
+    d = tempfile.mkdtemp(prefix="verif-c12-child-")
+    with open(os.path.join(d, "job.json"), "w") as fh:
+        json.dump({"items": items}, fh)
+    env = dict(os.environ)
+    env.pop("PYTHONOPTIMIZE", None)
+    env["PYTHONDONTWRITEBYTECODE"] = "1"  # no *.opt-1.pyc next to the sources under test
+    env["PYTHONHASHSEED"] = "4242"
+    code = f"import sys; sys.path.insert(0, {HARNESS_DIR!r}); import props.c12 as m; sys.exit(m.child_main(sys.argv[1]))"
+    err = open(os.path.join(d, "stderr"), "w")
+    p = subprocess.Popen([sys.executable, "-O", "-c", code, d], stdin=subprocess.DEVNULL, stdout=subprocess.DEVNULL, stderr=err, env=env, cwd=HARNESS_DIR)
+    return {"dir": d, "proc": p, "err": err, "n": len(items)}
+
+
+def child_main(d):
+    with open(os.path.join(d, "job.json")) as fh:
+        job = json.load(fh)
+    load()
+    frng = random.Random(0)
+    for _ in range(len(GARBAGE) * 2):  # the FIRST calls this interpreter makes on the classes are failing ones
+        call(failing_calls, frng)
+    out = {"optimize": sys.flags.optimize, "answers": [eval_item(it) for it in job["items"]]}
+    with open(os.path.join(d, "answer.json.tmp"), "w") as fh:
+        json.dump(out, fh)
+    os.replace(os.path.join(d, "answer.json.tmp"), os.path.join(d, "answer.json"))
+    return 0
+
+
+def child_result(ch):
+    import shutil
+
+    from common import Infra
+
+    try:
+        try:
+            rc = ch["proc"].wait(timeout=300)
+        except subprocess.TimeoutExpired:
+            ch["proc"].kill()
+            raise Infra("the python -O child of the C12 check did not answer within 300 s")
+        ch["err"].close()
+        try:
+            with open(os.path.join(ch["dir"], "answer.json")) as fh:
+                ans = json.load(fh)
+        except (OSError, ValueError):
+            tail = open(os.path.join(ch["dir"], "stderr")).read()[-600:]
+            raise Infra(f"the python -O child of the C12 check gave no answer (rc={rc}): {tail}")
+        if ans.get("optimize") != 1 or len(ans["answers"]) != ch["n"]:
+            raise Infra("the python -O child of the C12 check did not run optimised / answered another number of items")
+        return ans["answers"]
+    finally:
+        shutil.rmtree(ch["dir"], ignore_errors=True)
+
+
+PROBES = {"provenance": probe_provenance, "alias": probe_alias, "size": probe_size}
 
 
 # ------------------------------------------------------------------------------------------------
@@ -1923,7 +3109,12 @@ def run(ctx):
         "or HSTRP, assign a field (same / other size), change a RadioIP / GPSData / settings dict / option list / packet type in place, "
         "switch the opcode, parse or deepcopy and carry on, change the wrapper's own fields}, started from a built or a parsed PDU of "
         "every service, property + fresh-object + hand-written packet + model compared after every step; objects are kept and "
-        "re-verified at the end. A case is one PDU (distinct = distinct field tuple and text hand-over) or one history; all are non-trivial."
+        "re-verified at the end. Round 3 probes: option lists by provenance recipe (4 origins of the entry objects x 9 ways of filling the list x 9 identity "
+        "patterns incl. the same entry object several times / last, equal-but-not-identical entries); one sub-object shared by several fields / PDUs / "
+        "wrappers and changed through one reference (6 kinds); size extremes inside one PDU (option chains up to 32 760 / 70 000 entries, payloads at "
+        "65 535 - overhead, HRNP at 65 535, thresholds 2^8 / 2^12 / 2^15 / 2^16, one past each limit refused) with the model driven at these sizes; a fixed "
+        "sample answered again 100 frames below the recursion limit, with logging at DEBUG and dead standard streams, with failing calls in between, with "
+        "`random` reseeded and in a child `python -O`. A case is one PDU (distinct = distinct field tuple and text hand-over), one history or one probe; all are non-trivial."
     )
     ctx.trusted_base += [
         "Lean 4.33 kernel",
@@ -1934,6 +3125,9 @@ def run(ctx):
         "Python's strict UTF-16-LE codec is modelled (Model/Hdap.lean utf16le, theorems in Props/C12c.lean) and compared on every text handed over as str "
         "(`tmp.text` lines) and with a hand-written encoder in the oracle; datetime.strftime, bitarray are trusted",
         "the model has no object state: histories are tied to it by evaluating the model on the object's current field values after every step",
+        "the model has no object identity either: provenance / alias probes hand it the option VALUES by position (Props/C12b options_position_not_identity, "
+        "options_replicate state that the chain depends on nothing else); the interpreter's call stack is not modelled (the Lean parser is total by fuel = "
+        "input length) — stack depth is exercised on the real code only",
     ]
     ctx.assumptions += [
         "in-range fields: enum-typed attributes are members, integers fit their wire width, GPS coordinates are multiples of 10^-4 "
@@ -1944,6 +3138,9 @@ def run(ctx):
         "fields compared are the attributes the opcode serialises (relevant_tuple); attributes an opcode never writes are not fields of that PDU",
         "text: a str of Unicode scalar values, or any even number of octets (unpaired surrogates travel as octets only; the strict codec refuses them in a str); "
         "odd-length octet strings are not UTF-16 text and appear only in the parsers' correspondence",
+        "sizes: payloads up to 65 535 octets, HRNP packets up to 65 535 octets, option data up to 255 octets are in range; one octet more is out of range and "
+        "only has to be refused (or, if something is serialised, to be right): OverflowError / ValueError there is not a failure",
+        "option list entries are 2-tuples (tuple or a tuple subclass) of (HSTRPOptionType member, bytes); lists / generators as entries, bytearray / memoryview data are not exercised",
         "object histories keep every intermediate state in range (option data present before the option flag is set, an opcode is switched only to one whose "
         "fields the object holds) and never change the constructors' shared default objects (GPSData.zero(), the default settings dict) in place",
     ]
@@ -1955,6 +3152,15 @@ def run(ctx):
     for kind, p in regression_pdus():
         one_pdu(ctx, rng, p, kind, pairs, sample=kind.endswith("request"))
 
+    gens = [("RRS", gen_rrs), ("LP", gen_lp), ("TMP", gen_tmp), ("RCP", gen_rcp)]
+    # -------- round 3: where arguments come from (one object at several places), sizes at the limits of the length fields
+    payloads = [t for t in (safe(g(rng).expected) for _n, g in gens * 3) if not t.startswith("ERR")]
+    run_provenance(ctx, rng, pairs, payloads)
+    run_alias(ctx, rng, pairs)
+    run_sizes(ctx, rng, pairs)
+    if pairs is not None:
+        ctx.correspond("provenance / shared sub-objects / size extremes", pairs)
+        pairs = []
     # -------- the special-token dictionary (every token x position x field, text as str and as octets)
     held = []  # objects kept alive with the bytes they serialised to: re-verified after everything else ran
     for kind, c in token_cases(rng):
@@ -1993,6 +3199,8 @@ def run(ctx):
             one_pdu(ctx, rng, p, "LP-speed-over", pairs, nest=i % 4 == 0, case=c)
     # -------- object histories: one object observed, wrapped, changed, observed again
     run_histories(ctx, rng, pairs, held)
+    # -------- round 3: a fixed sample answered again under other interpreter / process states
+    run_ambient(ctx, rng)
     if pairs is not None and len(pairs) > 20000:
         ctx.correspond("pdu build/parse (alone, HRNP, HSTRP)", pairs)
         pairs = []
@@ -2141,7 +3349,30 @@ def replay(obj):
     print(obj.get("type"), "-", f.get("what"))
     print("input:", inp)
     still = 0
-    if "corpus" in inp:
+    if inp.get("probe") in PROBES:
+        c = ReplayCtx()
+        print(f"probe {inp['probe']} with parameters {json.dumps(inp['params'])[:2000]}")
+        r = call(PROBES[inp["probe"]], c, inp["params"], None)
+        if isinstance(r, Exc):
+            c.fail("probe-raises", None, f"the probe raised {r}")
+        for kf in c.failures:
+            print("oracle:", kf[0], "-", kf[1], "| expected", str(kf[2])[:600], "| actual", str(kf[3])[:600])
+        if inp["probe"] == "provenance":
+            o, values, _keep = build_options(inp["params"]["recipe"])
+            print("implementation options.as_bytes():", safe(lambda: o.as_bytes().hex()), " written out by hand:", spec_tlv([(c2.value, d) for c2, d in values]).hex())
+            print("model: run `echo 'opts.parse <hex written out by hand>' | lean/.lake/build/bin/drv_c12` (the model has no object identity: it is given the values by position)")
+        still = 1 if c.failures else 0
+    elif inp.get("probe") == "ambient":
+        pr = inp["params"]
+        base = eval_item(pr["item"])
+        if pr["setting"] == CHILD:
+            got = child_result(child_start([pr["item"]]))[0]
+        else:
+            got = eval_under(pr["setting"], [pr["item"]], random.Random(pr.get("fseed", 0)))[0]
+        print("plain answer:          ", abbr(base))
+        print(f"under [{pr['setting']}]:", abbr(got))
+        still = 0 if got == base else 1
+    elif "corpus" in inp:
         data = bytes.fromhex(inp["corpus"])
         cls = {"hstrp": L.hstrp.HSTRP, "hrnp": L.hrnp.HRNP, "hdap": L.hdap.HDAP}[inp.get("layer", "hdap")]
         o = call(cls.from_bytes, data)
@@ -2171,6 +3402,12 @@ def replay(obj):
             print("oracle:", kf[0], "-", kf[1], "| expected", kf[2], "| actual", kf[3])
         still = 1 if c.failures else 0
         print("model: the model has no object state; run `echo 'hdap.mk <fields>' | lean/.lake/build/bin/drv_c12` for the fields printed at the failing step")
+    elif inp.get("fields") == "NONE" and inp.get("nesting") == "HSTRP":
+        c = ReplayCtx()
+        replay_hstrp(c, None, None, {"fields": "NONE", "service": "-"}, inp)
+        for kf in sorted(set((k[0], k[1]) for k in c.failures)):
+            print("oracle:", kf)
+        still = 1 if c.failures else 0
     elif isinstance(inp.get("fields"), str) and inp["fields"].split(" ")[0] in SERVICE:
         p = call(build_from_tuple, inp["fields"], inp.get("text_as", "octets"))
         if isinstance(p, Exc):
@@ -2195,8 +3432,7 @@ def replay(obj):
                 for s in range(20):
                     check_hrnp(c, random.Random(s), p, bb, i2, None)
             if inp.get("nesting") == "HSTRP":
-                for s in range(20):
-                    check_hstrp(c, random.Random(s), p, bb, i2, None)
+                replay_hstrp(c, p, bb, i2, inp)
             for kf in sorted(set((k[0], k[1]) for k in c.failures)):
                 print("oracle:", kf)
             still = 1 if c.failures else 0
@@ -2209,6 +3445,18 @@ def replay(obj):
     print("expected:", f.get("expected"))
     print("actual:  ", f.get("actual"))
     return still
+
+
+def replay_hstrp(c, p, bb, i2, inp):
+    """the recorded option list (filled by add_option) around the PDU, then other option lists / packet types"""
+    H = L.hstrp
+    ol = (inp.get("hstrp") or {}).get("options")
+    if isinstance(ol, str) and ol != "-" and "…" not in ol and " " not in ol:
+        spec = [(member(H.HSTRPOptionType, int(e.split(":")[0])), b"" if e.split(":")[1] == "-" else bytes.fromhex(e.split(":")[1])) for e in ol.split(",")]
+        for s in range(3):
+            check_hstrp(c, random.Random(s), p, bb, i2, None, opts=gen_options(None, len(spec), spec), spec=spec)
+    for s in range(20):
+        check_hstrp(c, random.Random(s), p, bb, i2, None)
 
 
 def build_from_tuple(t: str, text_as: str = "octets"):
